@@ -3,7 +3,6 @@ package sym
 import (
 	"fmt"
 	"go/types"
-	"os"
 	"sort"
 	"strings"
 	"time"
@@ -161,7 +160,6 @@ func RunCase(prog *ssa.Program, pkg *ssa.Package, harness string, shape map[stri
 		}
 		return c.Uge(t.Cs[len(t.Cs)-1], c.BV(uint64(ev), t.Cs[0].W))
 	}
-	tmo := ro.TimeoutMs
 	check := func(asserts []smt.Term, want []smt.Term) (smt.Result, map[string]uint64) {
 		all := append(append([]smt.Term{}, base...), asserts...)
 		trivial := true
@@ -176,7 +174,7 @@ func RunCase(prog *ssa.Program, pkg *ssa.Package, harness string, shape map[stri
 			res.Queries["by:constant-folding"]++
 			return smt.Sat, map[string]uint64{}
 		}
-		r, m, who := Race(solvers, all, want, tmo, ro.CrossCheck, &res.Notes)
+		r, m, who := Race(solvers, all, want, ro.TimeoutMs, ro.CrossCheck, &res.Notes)
 		res.Queries[r.String()]++
 		if who != "" {
 			res.Queries["by:"+who]++
@@ -198,33 +196,81 @@ func RunCase(prog *ssa.Program, pkg *ssa.Package, harness string, shape map[stri
 		res.ObligationIDs[o.ID]++
 	}
 	inconclusive := ""
-	// 1. obligations: combined query first
+	// 1. obligations. Assertions tagged for another property ("Cnn.") are not this check's. Two
+	// groups (the property's own assertions first, then the validity checks: panics, raw-pointer
+	// range, alignment, blocking); each group is asked as one disjunction and split in halves on
+	// "unknown". A satisfiable disjunction yields a model in which the violated obligations are
+	// identified by evaluation; the earliest one is reported.
 	if len(e.Obls) > 0 {
-		var conds []smt.Term
-		for _, o := range e.Obls {
-			conds = append(conds, c.And(o.Cond, reached(o.Thread, o.EvIdx)))
+		conds := make([]smt.Term, len(e.Obls))
+		for i, o := range e.Obls {
+			conds[i] = c.And(o.Cond, reached(o.Thread, o.EvIdx))
 		}
-		any := c.Or(conds...)
-		tmo = ro.TimeoutMs / 3
-		r, _ := check([]smt.Term{any}, nil)
-		tmo = ro.TimeoutMs
-		switch r {
-		case smt.Unsat:
-			res.Discharged = len(e.Obls)
-		default:
-			// individually, in program order; stop at the first violation
-			for i, o := range e.Obls {
-				// collect every variable of the condition for trace rendering
-				want := append([]smt.Term{}, c.Vars...)
-				ri, m := check([]smt.Term{conds[i]}, want)
-				if ri == smt.Unsat {
-					res.Discharged++
-					continue
+		isValidity := func(id string) bool {
+			return strings.HasPrefix(id, "nopanic:") || strings.HasPrefix(id, "rawptr:") || strings.HasPrefix(id, "aligned:") || strings.HasPrefix(id, "noblock:")
+		}
+		foreign := func(id string) bool {
+			id = strings.TrimPrefix(id, "F-ABA/")
+			if len(id) > 4 && id[0] == 'C' && id[3] == '.' && id[1] >= '0' && id[1] <= '9' && id[2] >= '0' && id[2] <= '9' {
+				return ro.Prop != "" && id[:3] != ro.Prop
+			}
+			return false
+		}
+		var propIdx, valIdx []int
+		for i, o := range e.Obls {
+			if foreign(o.ID) {
+				res.Obligations--
+				res.ObligationIDs[o.ID]--
+				if res.ObligationIDs[o.ID] == 0 {
+					delete(res.ObligationIDs, o.ID)
 				}
-				if ri == smt.Unknown {
-					inconclusive = "solver unknown on obligation " + o.ID + " at " + o.Where
-					continue
+				continue
+			}
+			if conds[i].IsFalse() {
+				res.Discharged++
+				continue
+			}
+			if isValidity(o.ID) {
+				valIdx = append(valIdx, i)
+			} else {
+				propIdx = append(propIdx, i)
+			}
+		}
+		found := false
+		var solveGroup func(idx []int)
+		solveGroup = func(idx []int) {
+			if found || len(idx) == 0 {
+				return
+			}
+			var ds []smt.Term
+			for _, i := range idx {
+				ds = append(ds, conds[i])
+			}
+			r, m := check([]smt.Term{c.Or(ds...)}, c.Vars)
+			switch r {
+			case smt.Unsat:
+				res.Discharged += len(idx)
+			case smt.Sat:
+				memo := map[int]uint64{}
+				pick := -1
+				for _, i := range idx {
+					if smt.Eval(conds[i], m, memo) == 1 {
+						pick = i
+						break
+					}
 				}
+				if pick < 0 {
+					inconclusive = "model does not satisfy any obligation of a satisfiable group (engine error)"
+					return
+				}
+				for _, i := range valIdx {
+					if i < pick && smt.Eval(conds[i], m, memo) == 1 {
+						pick = i
+						break
+					}
+				}
+				o := e.Obls[pick]
+				found = true
 				v := &ViolationInfo{ID: o.ID, Where: fmt.Sprintf("%s [thread %d after event %d]", o.Where, o.Thread, o.EvIdx), Model: m}
 				for _, in := range e.Inputs {
 					v.Inputs = append(v.Inputs, InputVal{in.Name, in.Kind, m[in.T.Name]})
@@ -232,29 +278,34 @@ func RunCase(prog *ssa.Program, pkg *ssa.Package, harness string, shape map[stri
 				for _, th := range e.ThreadsDone {
 					var row []uint64
 					for _, cs := range th.Cs {
-						row = append(row, m[cs.Name])
+						if cs.IsConst() {
+							row = append(row, cs.Val)
+						} else {
+							row = append(row, m[cs.Name])
+						}
 					}
 					v.Sched = append(v.Sched, row)
 				}
 				v.Trace = e.renderTrace(m)
-				if os.Getenv("VERIF_DEBUG") != "" {
-					memo := map[int]uint64{}
-					fmt.Fprintf(os.Stderr, "DEBUG obligation %s cond=%d reached=%d\n", o.ID, smt.Eval(o.Cond, m, memo), smt.Eval(reached(o.Thread, o.EvIdx), m, memo))
-					for _, b := range base {
-						if smt.Eval(b, m, memo) != 1 {
-							fmt.Fprintf(os.Stderr, "DEBUG base constraint false under model: node %d\n", b.ID)
-						}
-					}
-					for _, th := range e.ThreadsDone {
-						for _, ev := range th.Events {
-							fmt.Fprintf(os.Stderr, "DEBUG t%d #%d %s G=%d @%s\n", th.ID, ev.Idx, evName[ev.Kind], smt.Eval(ev.G, m, memo), ev.Where)
-						}
+				for _, i := range idx {
+					if i != pick && smt.Eval(conds[i], m, memo) == 1 {
+						v.Trace = append(v.Trace, "also violated in this model: "+e.Obls[i].ID+" at "+e.Obls[i].Where)
 					}
 				}
 				res.Violations = append(res.Violations, v)
-				break
+			default:
+				if len(idx) == 1 {
+					o := e.Obls[idx[0]]
+					inconclusive = "solver unknown on obligation " + o.ID + " at " + o.Where
+					return
+				}
+				h := len(idx) / 2
+				solveGroup(idx[:h])
+				solveGroup(idx[h:])
 			}
 		}
+		solveGroup(propIdx)
+		solveGroup(valIdx)
 	}
 	// 2. covers
 	res.Covers = len(e.Covers)
